@@ -10,6 +10,9 @@
 //!   hang-blocked   no instruction dispatched, no stop request outstanding (threads block each other at script
 //!                  level — or a primitive never returns);
 //!   hang-running   instructions are still being dispatched (a long or endless computation).
+//! Delay injection: with env `C16_JITTER=<seed>` a yield callback is installed that busy-waits a pseudo-random
+//! 0..40 us at the yield points of the handshake that border its narrow windows (sp.exit.retract, poll.retract,
+//! scan.spin, stop.thread, resume.thread, env.thunk) — the schedule stays the OS's, the windows get wider.
 //! stdout, one line per case:
 //!   case <id> outcome=<finished|error:<text>|panic|hang-…> value=<text|-> ok=<1|0> ms=<wall>
 //!        dispatched=<n> stops=<issued>/<completed> gcs=<started>/<finished> envs=<started>/<finished>
@@ -22,6 +25,36 @@ use std::time::{Duration, Instant};
 
 use steel::steel_vm::engine::Engine;
 use steel::steel_vm::verif;
+
+static JSEED: std::sync::atomic::AtomicU64 = std::sync::atomic::AtomicU64::new(0);
+thread_local! {
+    static RNG: std::cell::Cell<u64> = const { std::cell::Cell::new(0) };
+}
+
+fn jitter(site: &'static str, key: usize) {
+    match site {
+        "sp.exit.retract" | "poll.retract" | "scan.spin" | "stop.thread" | "resume.thread" | "env.thunk" => {}
+        _ => return,
+    }
+    let r = RNG.with(|c| {
+        let mut x = c.get();
+        if x == 0 {
+            x = JSEED.load(Ordering::Relaxed) ^ (key as u64).wrapping_mul(0x9E3779B97F4A7C15) | 1;
+        }
+        x ^= x << 13;
+        x ^= x >> 7;
+        x ^= x << 17;
+        c.set(x);
+        x
+    });
+    if r % 4 == 0 {
+        let us = (r >> 8) % 40;
+        let t = Instant::now();
+        while t.elapsed() < Duration::from_micros(us) {
+            std::hint::spin_loop();
+        }
+    }
+}
 
 fn emit(line: &str) {
     let out = std::io::stdout();
@@ -43,6 +76,10 @@ fn counters_text() -> String {
 }
 
 fn main() {
+    if let Ok(seed) = std::env::var("C16_JITTER") {
+        JSEED.store(seed.parse().unwrap_or(1), Ordering::Relaxed);
+        verif::set_yield(Some(jitter));
+    }
     let stdin = std::io::stdin();
     for line in stdin.lock().lines() {
         let line = match line {
